@@ -163,6 +163,14 @@ def match_scan(fn):
             op = {"Lt": "Gt", "Le": "Ge", "Gt": "Lt", "Ge": "Le"}.get(op, op)
         out.update(kind="table", key_col=m["kc"], op=op, param=m["p"])
         mv = match(("field", row, V("vc")), rt)
+        if mv is None and rt == row:
+            # the whole row is returned (a helper shared by several lookups): column chosen by the caller
+            out["val_col"] = None
+            out["keys"] = [r[m["kc"]] for r in rows]
+            out["vals"] = None
+            out["rows"] = len(rows)
+            out["table_rows"] = rows
+            return out
         if mv is None:
             return None
         out["val_col"] = mv["vc"]
@@ -231,3 +239,33 @@ def first_match_is_smallest(sc):
     keys = sc["keys"]
     inc = all(keys[i] < keys[i + 1] for i in range(len(keys) - 1))
     return inc and not sc["rev"]
+
+
+def match_delegate(fn, scans):
+    """a lookup that delegates to a whole-row scan:  f(k) = helper(k).col  (optionally behind its own entry assert)"""
+    tb = terms.TermBuilder(fn)
+    rts = tb.return_terms()
+    if len(rts) != 1:
+        return None
+    rb, rt = rts[0]
+    m = match(("field", ("call", V("h"), (("param", V("p")),)), V("vc")), terms.strip_casts(rt))
+    if m is None or m["h"] not in scans or scans[m["h"]].get("val_col") is not None or scans[m["h"]]["kind"] != "table":
+        return None
+    h = scans[m["h"]]
+    if not isinstance(m["vc"], int) or h["param"] != 1:
+        return None
+    guard = None
+    for c, truth in tb.path_conditions(rb):
+        for pat, flip in ((("op", V("op"), ("param", V("p")), ("const", V("c"))), False),
+                          (("op", V("op"), ("const", V("c")), ("param", V("p"))), True)):
+            e = match(pat, c)
+            if e is not None and truth and e["p"] == m["p"]:
+                o = e["op"]
+                if flip:
+                    o = {"Lt": "Gt", "Le": "Ge", "Gt": "Lt", "Ge": "Le"}.get(o, o)
+                if o in ("Le", "Lt"):
+                    guard = {"param": e["p"], "op": o, "bound": e["c"]}
+    out = dict(h)
+    out.update(fn=fn.key, guard=guard or h.get("guard"), ret=rt, return_block=rb, param=m["p"], val_col=m["vc"],
+               vals=[r[m["vc"]] for r in h["table_rows"]], via=m["h"])
+    return out
